@@ -366,6 +366,12 @@ typedef struct functab_t {
 
 #define BADFREC(r) ((r) == NULL || (r)->refcount == 0)
 
+/* The record behind a file id or an access id.  An id of another group of
+   atoms (a Vdata, Vgroup, raster image, ... id handed to a call that takes a
+   file or access id) has no such record: NULL, never the foreign object */
+#define HIfile_rec(id)   (HAatom_group(id) == FIDGROUP ? (filerec_t *)HAatom_object(id) : NULL)
+#define HIaccess_rec(id) (HAatom_group(id) == AIDGROUP ? (accrec_t *)HAatom_object(id) : NULL)
+
 /* --------------------------- Special Elements --------------------------- */
 /* The HDF tag space is divided as follows based on the 2 highest bits:
    00: Library reserved ordinary tags
